@@ -180,8 +180,12 @@ def run_case(case):
     try:
         front = c_inference_pareto_front(mkbb())
     except Stall:
-        viol('front-enumeration-does-not-terminate%s' % (':single-conditional' if n == 1 else ''),
-             checks=st['n'], limit=limit, reference_front=[list(x) for x in ref_front])
+        if large:
+            # no reference front here, hence no bound on its size that could be called exact: not a verdict
+            res['inconclusive'].append('large base: front enumeration stopped after %d optimiser checks' % st['n'])
+        else:
+            viol('front-enumeration-does-not-terminate%s' % (':single-conditional' if n == 1 else ''),
+                 checks=st['n'], limit=limit, reference_front=[list(x) for x in ref_front])
     except Exception as e:
         if type(e).__name__ == 'SoftTimeout':
             raise
